@@ -8,8 +8,14 @@ VISIT_DEF = ("SBEPP_ENABLE_ASSERTS_WITH_HANDLER", "MSGDRV_CURSOR", "MSGDRV_BYTAG
 WR = "pinms"
 
 
+# release-style build: size checks compiled out (the library has separate code for this configuration in the cursor
+# range iterators); only call sequences the model runs without a report are executed there
+NOASSERT_KEY = ("g++", "c++14")
+
+
 def configs_for(tier):
-    cf = [("g++", "c++11", ("-O1",), CUR_DEF), ("g++", "c++20", ("-O1",), CUR_DEF)]
+    cf = [("g++", "c++11", ("-O1",), CUR_DEF), ("g++", "c++20", ("-O1",), CUR_DEF),
+          ("g++", "c++14", ("-O1",), ("SBEPP_DISABLE_ASSERTS", "MSGDRV_CURSOR"))]
     if tier == "thorough":
         cf += [("g++", "c++17", ("-O2",), CUR_DEF), ("clang++", "c++14", ("-O1",), CUR_DEF),
                ("clang++", "c++20", ("-O1",), CUR_DEF)]
@@ -93,7 +99,7 @@ def run(res, replay=None, visit_only=False):
     nseq = 14 if res.tier == "quick" else 40
     cfgs = configs_for(res.tier)
     if visit_only:
-        cfgs = [(c[0], c[1], c[2], VISIT_DEF) for c in cfgs]
+        cfgs = [(c[0], c[1], c[2], VISIT_DEF if "SBEPP_DISABLE_ASSERTS" not in c[3] else c[3] + ("MSGDRV_BYTAG",)) for c in cfgs]
     res.extra["configurations"] = ["%s -std=%s" % (c[0], c[1]) for c in cfgs]
     cases = prepare_many(res.seed, nschemas, cfgs)
     if visit_only:
@@ -209,7 +215,19 @@ def run(res, replay=None, visit_only=False):
             ilines += ["use " + m.name, "buf " + hx(buf)] + script
         mout = model.run(mlines)
         for (cxx, std), exe in mc.exes.items():
-            rc, iout, err = run_impl(exe, ilines)
+            noassert = (cxx, std) == NOASSERT_KEY
+            skip = set()
+            il = ilines
+            if noassert:
+                # without size checks a misplaced call is undefined behaviour: run only what the model runs cleanly
+                il = list(ilines)
+                for (m, v, buf, script, imglen, names, mo, io, cvexp, crexp) in jobs:
+                    for j, op in enumerate(script):
+                        a = mout[mo + 2 + j]
+                        if j and ("ASSERT" in a or "OOB" in a) and not op.startswith("cvisit"):
+                            il[io + 2 + j] = "size"
+                            skip.add(io + 2 + j)
+            rc, iout, err = run_impl(exe, il)
             if rc != 0 or len(iout) != len(ilines):
                 found = True
                 res.violation("driver-crash", "generated driver crashed (%s %s): %s" % (cxx, std, err[-300:]),
@@ -217,7 +235,7 @@ def run(res, replay=None, visit_only=False):
                 continue
             for (m, v, buf, script, imglen, names, mo, io, cvexp, crexp) in jobs:
                 for j, op in enumerate(script):
-                    if j == 0:
+                    if j == 0 or (io + 2 + j) in skip:
                         continue
                     a = mout[mo + 2 + j]
                     b2 = iout[io + 2 + j]
